@@ -88,6 +88,11 @@ pub fn run(s: &mut Session, ctx: &Ctx) {
         if let Some(r) = ops::adj(s, "rotate", &base, Some(360.0 * k), true) {
             s.check(r.to_rgba() == base.to_rgba() && r.to_hsla().h == base.to_hsla().h, "whole-turn-identity", "Color::rotate_hue", || format!("{}.rotate_hue({:?})", show_color(&base), 360.0 * k), || format!("{:?} vs {:?}", r.to_hsla(), base.to_hsla()));
         }
+        // very many whole turns (360 * k exactly representable) are still the identity
+        let big = *rng.pick(&[1e6, 1e9, 1e12, 1e15, 1e16, 1099511627776.0, 4503599627370496.0, -1e15, -1e12]);
+        if let Some(r) = ops::adj(s, "rotate", &base, Some(360.0 * big), true) {
+            s.check(r.to_rgba() == base.to_rgba() && circ_dist(r.to_hsla().h, base.to_hsla().h) <= 1e-9, "whole-turn-identity", "Color::rotate_hue", || format!("{}.rotate_hue(360 * {:?})", show_color(&base), big), || format!("{:?} vs {:?}", r.to_hsla(), base.to_hsla()));
+        }
         // complement is a self-inverse half turn
         if let Some(cc) = ops::adj(s, "complement", &base, None, true) {
             let h1 = cc.to_hsla();
